@@ -732,22 +732,39 @@ class TrajectoryStore:
                 'All trajectories in an indexable TrajectoryStore must have '
                 'flight_id field, and non-indexable stores must not have it'
             )
-        if self.indexable is None:
-            self.indexable = has_flight_id
 
-        # Maintain count of trajectories in store for indexing.
+        # Reject trajectories with missing required values before touching the
+        # store, so that a rejected addition leaves the store exactly as it
+        # was.
+        for name, field in trajectory._data_dictionary.items():
+            if field.required and trajectory._data.get(name) is None:
+                raise ValueError(
+                    f'Data field "{name}" is None in trajectory added to store'
+                )
+
+        # Maintain count of trajectories in store for indexing. If anything
+        # goes wrong while inserting, undo the bookkeeping before re-raising.
         saved_index = self._next_index
-        self._trajectories[saved_index] = trajectory
-        self._next_index += 1
+        saved_indexable = self.indexable
+        try:
+            if self.indexable is None:
+                self.indexable = has_flight_id
+            self._trajectories[saved_index] = trajectory
+            self._next_index += 1
 
-        # If this is the first trajectory added to the store, we might need to
-        # create the NetCDF files.
-        if self._file_creation_pending:
-            self._create()
-            self._file_creation_pending = False
+            # If this is the first trajectory added to the store, we might
+            # need to create the NetCDF files.
+            if self._file_creation_pending:
+                self._create()
+                self._file_creation_pending = False
 
-        # Write the trajectory data to the output NetCDF file.
-        self._write_trajectory(saved_index)
+            # Write the trajectory data to the output NetCDF file.
+            self._write_trajectory(saved_index)
+        except BaseException:
+            self._trajectories.pop(saved_index, None)
+            self._next_index = saved_index
+            self.indexable = saved_indexable
+            raise
 
         # Whenever we add a trajectory, the trajectory index is no longer up to
         # date. For efficiency, we do not reindex immediately, deferring either
